@@ -8,7 +8,7 @@ import re
 
 from engine import build, fwd, sym, fixtures, flow
 from engine.facts import cls_template, strip_ns, top_term, tstr
-from rules import common, unlink
+from rules import common, unlink, c02
 
 LEVEL = 'other'
 
@@ -89,6 +89,7 @@ def check_growth(run, db, fns=None):
 
 def run(run):
     run.rule('R-UNLINK', 'acquire/release node-count agreement and capacity_ bookkeeping', floor=10)
+    run.rule('R-RUN', 'the array search accounts the found interval exactly (one node at the start and after a gap, + node size per contiguous node) and stops at the first fit', floor=2)
     run.rule('R-GROW', 'growth only when the free list is empty (node) or the search failed (array)', floor=10)
     run.explanation = ('"Exactly the memory that was taken becomes available again" is decided as term agreement between what allocate(n) unlinks '
                        '(ceil(n/node_size) nodes, from the search loop) and what deallocate(ptr,n) links, plus exact capacity_ bookkeeping; '
@@ -99,6 +100,8 @@ def run(run):
         run.count('functions_analysed', len(db.fns))
         if unlink.check_unlink(run, db) < 6:
             run.broke('free list functions not found [%s]' % cfg)
+        if c02.check_run(run, db) < 2:
+            run.broke('array search functions not found [%s]' % cfg)
         if check_growth(run, db) < 8:
             run.broke('pool allocation functions not found [%s]' % cfg)
     fixtures.expect_fire(run, 'c04_bad.cpp', _fixture, 'R-GROW')
